@@ -843,11 +843,11 @@ def main():
                        'floats of the real routines are compared with exact rationals at 1e-9 relative to max(1,|x|)',
                        'results are functions of the argument values: after any earlier call g(A) and an in-place edit of A, f(A) must equal f(copy of A) bit for bit']
     # T-gen: whole bodies of betweenness_bin / edge_betweenness_bin re-extracted from /repo's current source (translate/cores.py)
-    ck.cov['cores'] = cores.generate(families=['betw'])
+    ck.cov['cores'] = cores.generate(families=['betw', 'pinpart'])
     for p_ in ck.cov['cores']['problems']:
         ck.corr_break('core extractor (translate/cores.py)', p_)
     ok = ck.lean_gate(['BctVerif.Props.C08'], extra_modules=['BctVerif.Model.Between'])
-    ck.lean_gate([], gen_modules=['BctVerif.Gen.CoresBetw'])
+    ck.lean_gate([], gen_modules=['BctVerif.Gen.CoresBetw', 'BctVerif.Gen.CoresPinPart'])
     if ck.tier == 'thorough' and ok:
         ck.leanchecker(['BctVerif.Props.C08', 'BctVerif.Model.Between'])
     rs = ck.rs
